@@ -104,6 +104,11 @@ def main(argv):
         for rule, n in fl.items():
             # the floor guards against a rule going vacuous, not against single sites moving: tolerate a small shortfall
             slack = (n // 10) if n >= 20 else (1 if n >= 5 else 0)
+            if rule in ("R-CAP", "R-INB", "R-WRAP", "R-ORD"):
+                # armed / frozen-on-the-reviewed-tree instances are keyed by function: extracting a loop into a new static
+                # helper moves its sites out of the armed groups (found with benign set R7).  The floor only guards
+                # against wholesale loss here: at least half of the frozen instances must still be matched.
+                slack = max(slack, n // 2)
             if counts.get(rule, 0) < n - slack:
                 floor_msgs.append("%s: rule %s matched %d instances, below the confirmed floor %d — anchors moved or the rule lost its sites"
                                   % (pid, rule, counts.get(rule, 0), n))
